@@ -92,7 +92,7 @@ harness(void) {
       VP_WITNESS("log-open-failed-paranoid");
     } else {
 #if VP_STRICT_LOGOPEN
-      VP_ASSERT(rc != LDB_OK, "vp:KF:F3 a log that cannot be opened is not silently skipped");
+      VP_ASSERT(rc != LDB_OK, "KF:F3-log-open-failure-ignored a log that cannot be opened is not silently skipped (its records would be lost)");
 #endif
       if (rc == LDB_OK)
         VP_WITNESS("log-open-failed-ignored");
